@@ -161,6 +161,9 @@
 pub mod builder;
 pub mod scmp_handler;
 pub mod socket;
+/// Verification hooks: socket over an in-memory underlay (feature `verif-hooks`).
+#[cfg(feature = "verif-hooks")]
+pub mod verif;
 
 use std::{borrow::Cow, fmt, net, sync::Arc, time::Duration};
 
